@@ -187,9 +187,9 @@ theorem unpackSnorm3x10_1x2_idem (v : UInt32) :
   intro q; simp only [q]; rw [packSnorm3x10_1x2_unpack]
   have b := i1010102_bounds v
   have cx : ∀ c : Int32, (-512 ≤ c ∧ c ≤ 511) → ((canonS (-512) c) <<< 22) >>> 22 = canonS (-512) c := by
-    intro c hc; unfold canonS; bv_decide
+    intro c hc; unfold canonS; bv_decide (config := { timeout := 180 })
   have cw : ∀ c : Int32, (-2 ≤ c ∧ c ≤ 1) → ((canonS (-2) c) <<< 30) >>> 30 = canonS (-2) c := by
-    intro c hc; unfold canonS; bv_decide
+    intro c hc; unfold canonS; bv_decide (config := { timeout := 180 })
   simp only [unpackSnorm3x10_1x2_x, unpackSnorm3x10_1x2_y, unpackSnorm3x10_1x2_z, unpackSnorm3x10_1x2_w,
     i1010102_x, i1010102_y, i1010102_z, i1010102_w, cx _ b.1, cx _ b.2.1, cx _ b.2.2.1, cw _ b.2.2.2,
     uSn511_canon, uS1_canon, and_self]
